@@ -249,7 +249,13 @@ func (in *inst) file(name string, f *ast.File) {
 					}
 				}
 				if !hasDefault {
-					in.unsupported("select without default (can block)", x.Pos())
+					// select { A; B }  ->  simselN: select { A; B; default: simhook.Poll(); goto simselN }
+					// (a labelled select and a goto keep the statement terminating when all its cases are,
+					// and leave break / continue inside the cases meaning what they meant)
+					lbl := fmt.Sprintf("simsel%d", len(in.rep.Seams))
+					in.add(name, x.Pos(), x.Pos(), lbl+": ")
+					in.add(name, x.Body.Rbrace, x.Body.Rbrace, "default: "+in.hook+".Poll(); goto "+lbl+"; ")
+					in.seamAt("select without default (polling)", x.Pos())
 				}
 				// a select with a default clause never blocks: its channel operations stay as they are
 				for _, c := range x.Body.List {
